@@ -59,15 +59,15 @@ HARNESSES = [
       functions=['CScriptNum::CScriptNum(vector, fRequireMinimal, nMaxNumSize)', 'CScriptNum::set_vch', 'CScriptNum::getint', 'CScriptNum::GetInt64'],
       bounds='all byte strings of length 0..6, both minimal modes, nMaxNumSize 4 and 5'),
     H('scriptnum_encode', 'scriptnum.cpp', 'h_encode', link=['script/script.cpp', 'uint256.cpp'], shadow=['nofmt'], unwind=12, memunwind=12, cbmc=['-D', 'VERIF_ALLOC_MAX=32'], timeout=1200, objbits=10, backends=['default', 'kissat'],
-      functions=['CScriptNum::serialize'], bounds='all 64-bit values except INT64_MIN (excluded by the documented contract of serialize)', assumptions=['value != INT64_MIN']),
+      functions=['CScriptNum::serialize'], bounds='all 64-bit values except INT64_MIN (excluded by the documented contract of serialize): minimal encoding that decodes back; byte-equality with the stand-in encoder for |value| < 2^47; allocations asserted <= 32 bytes', assumptions=['value != INT64_MIN']),
     H('evalseq', 'evalseq.cpp', 'h_evalseq', link=['script/interpreter.cpp', 'script/script.cpp', 'script/script_error.cpp', 'primitives/transaction.cpp', 'uint256.cpp', 'hash.cpp', 'crypto/ripemd160.cpp', 'crypto/sha1.cpp', 'crypto/sha256.cpp'],
       entries=seq_quick, shadow=['nofmt'], unwind=12, memunwind=40, timeout=900, objbits=11, replace={'_ZN10CScriptNum9serializeERKl': 'verif_repl_serialize'},
       functions=['EvalScript: ConditionStack, OP_IF/NOTIF/ELSE/ENDIF/VERIF, OP_0..OP_16, OP_CHECKLOCKTIMEVERIFY, OP_CHECKSEQUENCEVERIFY, OP_CHECKSIG(VERIFY) via EvalChecksigPreTapscript, FindAndDelete'],
-      stubs=['CScriptNum::serialize replaced by a single-allocation encoder equal to the reference encoder (see scriptnum_encode)', 'signature checker = abstract checker with symbolic verdicts (records its arguments)', 'CPubKey/XOnlyPubKey nondeterministic stubs (unreached: no encoding flags)', 'tinyformat -> empty strings'],
+      stubs=['CScriptNum::serialize replaced (inside EvalScript only) by a single-allocation encoder; harness scriptnum_encode proves it byte-identical to the real serialize for every |value| < 2^47; a larger value reaching it traps', 'signature checker = abstract checker with symbolic verdicts (records its arguments)', 'CPubKey/XOnlyPubKey nondeterministic stubs (unreached: no encoding flags)', 'tinyformat -> empty strings'],
       bounds='%d scripts of <= 4 opcodes; <= 3 stack elements of concrete length <= 5; flags MINIMALDATA, MINIMALIF, CLTV, CSV, NULLFAIL, DISCOURAGE_UPGRADABLE_NOPS symbolic; SigVersion BASE or WITNESS_V0 per entry' % len(seq_quick)),
     H('evalop', 'evalop.cpp', 'h_evalop', link=['script/interpreter.cpp', 'script/script.cpp', 'script/script_error.cpp', 'primitives/transaction.cpp', 'uint256.cpp', 'hash.cpp', 'crypto/ripemd160.cpp', 'crypto/sha1.cpp', 'crypto/sha256.cpp'],
       entries=quick, tentries=thorough, shadow=['nofmt'], unwind=12, memunwind=40, timeout=900, objbits=11, replace={'_ZN10CScriptNum9serializeERKl': 'verif_repl_serialize'},
       functions=['EvalScript (script/interpreter.cpp)', 'CScriptNum ctor/getint/getvch/serialize/IsMinimallyEncoded (script/script.h)', 'CastToBool', 'CScript::GetOp/GetScriptOp', 'stack helpers (stacktop, popstack)', 'std::vector<std::vector<unsigned char>> (libstdc++)'],
-      stubs=['CScriptNum::serialize replaced by a single-allocation encoder equal to the reference encoder (equivalence with the real serialize for all int64: harness scriptnum_encode)', 'tinyformat -> empty strings', 'assertion_fail -> CBMC assertion', 'BaseSignatureChecker (default: every check fails; not reached by these opcodes)'],
+      stubs=['CScriptNum::serialize replaced (inside EvalScript only) by a single-allocation encoder; harness scriptnum_encode proves it byte-identical to the real serialize for every |value| < 2^47; a larger value reaching it traps', 'tinyformat -> empty strings', 'assertion_fail -> CBMC assertion', 'BaseSignatureChecker (default: every check fails; not reached by these opcodes)'],
       bounds='one opcode per query (%d quick / %d thorough shapes); <= 4 stack elements of 0..5 bytes (concrete lengths, symbolic bytes); flags MINIMALDATA, DISCOURAGE_UPGRADABLE_NOPS, MINIMALIF symbolic; SigVersion BASE' % (len(quick), len(thorough))),
 ]
